@@ -472,6 +472,9 @@ def check_compose(seed, n_cases, n_max=4):
                 nd["kwdeps"] = {"kw": (d, k)}
             if nd["deps"] and rnd.random() < 0.25:
                 nd["active"] = (nd["deps"][0][0], ["t"])
+            elif w.order.index(nid) > 0 and rnd.random() < 0.25:
+                # a node that references an earlier node ONLY through its activation flag
+                nd["active"] = (rnd.choice(w.order[: w.order.index(nid)]), rnd.choice([["t"], ["k", "t"]]))
         srcs = [d for nd in w.nodes.values() for d, _ in list(nd.get("kwdeps", {}).values()) + ([nd["active"]] if nd.get("active") else []) + [x for x in nd["deps"] if x[1]]]
         ins = rnd.sample(w.order, rnd.randint(0, min(2, len(w.order) - 1)))
         if srcs and rnd.random() < 0.6:
@@ -572,6 +575,10 @@ def one_config(w, conf, rnd):
 
     v = []
     dag = w.build_dag()
+    if rnd.random() < 0.5:
+        # a plain call (and an executor) BEFORE the re-configuration: nothing derived for them may survive it (C15)
+        run_controlled(lambda: dag(), w)
+        dag.executor()
     dag.config_from_dict(conf)
     # the description after re-configuration
     for nid, c in conf["nodes"].items():
@@ -606,6 +613,11 @@ def one_config(w, conf, rnd):
             for m in ms:
                 if "[KF-" not in m:
                     v.append(f"[{p_}] after config_from_dict: {m}")
+                    if p_ == "C06":
+                        # scheduling with stale priorities after a re-configuration: also "state leaked from an earlier call" (C15)
+                        # and "recomputed when priorities are reconfigured" (C07)
+                        v.append(f"[C15] after config_from_dict (a call / executor was made before it): {m}")
+                        v.append(f"[C07] after config_from_dict: {m}")
         prefix = ch.next_prefix()
         k += 1
     w.ctrl = None
